@@ -5,13 +5,13 @@ From M Require Import Base Flat FlatSpec.
 From P Require Import FlatP FlatOrder.
 Import ListNotations.
 
-(* For every machine, every environment that does not raise (all condition
+(* For every machine, every environment that does not raise from position p on (all condition
    valuations, all callback return values), every context (model, payload, send_event),
    every start position and current state that is a source of the event: the engine's
    trace, final state and result are those of the documented order [spec_step]. *)
 Theorem C01_order :
-  forall (mc : machine) (ev : env) (c : ctx), no_raise ev ->
-  forall (ts : list trans) (p : nat) (cur : state),
+  forall (mc : machine) (ev : env) (c : ctx) (ts : list trans) (p : nat) (cur : state),
+    no_raise_from ev p ->
     registered mc cur = true -> wf_trans mc ts = true -> candidates ts cur <> [] ->
     trigger_event mc ev c ts p cur =
       (let r := spec_step mc ev c ts cur p in (fst (fst r), snd (fst r), inr (snd r))).
@@ -22,8 +22,8 @@ Print Assumptions C01_order.
    outcome is MachineError (routed to on_exception handlers when present) unless the
    state — else the machine — ignores invalid triggers; finalize still runs. *)
 Theorem C01_invalid :
-  forall (mc : machine) (ev : env) (c : ctx), no_raise ev ->
-  forall (ts : list trans) (p : nat) (cur : state),
+  forall (mc : machine) (ev : env) (c : ctx) (ts : list trans) (p : nat) (cur : state),
+    no_raise_from ev p ->
     registered mc cur = true -> candidates ts cur = [] ->
     trigger_event mc ev c ts p cur =
       (let r := spec_invalid mc ev c cur p in (fst (fst r), snd (fst r), of_outcome (snd r))).
